@@ -175,7 +175,10 @@ size_t ppMinPoly_deep(size_t l)
 {
 	const size_t n = W_OF_B(l);
 	const size_t m = W_OF_B(l + 1);
-	return O_OF_W(8 * n + 2 * m + 5) + ppAddMulW_deep(m);
+	return O_OF_W(8 * n + 2 * m + 5) +
+		utilMax(2,
+			ppDiv_deep(2 * n + 1, 2 * n),
+			ppAddMulW_deep(m));
 }
 
 void ppMinPolyMod(word b[], const word a[], const word mod[], size_t n,
